@@ -430,6 +430,9 @@ breaking('TD1-seed-C18-r8m3', {'C18': 'TD1'}, patch='/verif/selftest/patches/see
 breaking('EVS1-seed-C20-r8m1', {'C20': 'EVS1'}, patch='/verif/selftest/patches/seed_C20_r8m1.diff')
 breaking('G5-seed-C20-r8m2', {'C20': 'G5'}, patch='/verif/selftest/patches/seed_C20_r8m2.diff')
 breaking('DROP1-seed-C20-r8m3', {'C20': 'DROP1'}, patch='/verif/selftest/patches/seed_C20_r8m3.diff')
+breaking('W1-seed-C02-r8m1', {'C02': 'W1'}, patch='/verif/selftest/patches/seed_C02_r8m1.diff')
+breaking('W1-seed-C02-r8m2', {'C02': 'W1'}, patch='/verif/selftest/patches/seed_C02_r8m2.diff')
+breaking('FW1-seed-C02-r8m3', {'C02': 'FW1'}, patch='/verif/selftest/patches/seed_C02_r8m3.diff')
 breaking('GI1-seed-C11-r7m1', {'C11': 'GI1'}, patch='/verif/selftest/patches/seed_C11_r7m1.diff')
 preserving('GI1-ok-indexed-by-position', ['C11'], edit=[('python/numqi/sim/_torch_utils.py', "                else: #custom measure\n                    info = dict(kind=kind, name=name, index=index, gate=gate)",
             "                else: #custom measure\n                    info = dict(kind=kind, name=name, index=index, gate=gate_index_list[ind0][0])")])
